@@ -61,7 +61,10 @@ def pollute(P):
     for t in ["CRLF = %x0D.0A / %x0A", "WSP = SP / HTAB / %x0B", "LWSP = *(WSP / CRLF WSP)", "fws = *(WSP / CRLF WSP)",
               'rulename = ALPHA *(ALPHA / DIGIT / "-" / "_")', "c-nl = comment / CRLF / %x0A",
               'comment = ";" *(WSP / VCHAR / %x80-FF) CRLF']:
-        look.create(t)
+        try:
+            look.create(t)
+        except Exception:  # noqa - a reader that no longer reads valid ABNF shows in what the checks observe afterwards
+            pass
     return other, look
 
 
